@@ -13,7 +13,7 @@ from ..vlib import f2bits, il
 from . import _pool
 from .c18 import SpyRS
 
-LEAN_TARGETS = ["SkaModel.Props.C20"]
+LEAN_TARGETS = ["SkaModel.Props.C20", "SkaModel.Gen.Skeleton"]
 LEVEL = "proof"
 RULE = (
     "cases: ParallelUtilityEstimationWrapper x sample-wise inner strategies x candidate modes x n_jobs in {1,2,3,5,-1,40} (threading backend so "
@@ -37,6 +37,19 @@ SUB_INNER = ["RandomSampling", "UncertaintySampling[margin_sampling]", "Probabil
              "GreedySamplingX", "ExpectedModelChangeMaximization", "DiscriminativeAL[greedy]", "Clue", "Badge"]
 
 
+def generate(ctx):
+    """Translator tie: the parallel wrapper's `query` must end in the modelled scatter + simple_batch tail seeded by
+    `self.random_state_` (the per-call generator every strategy derives the same way) — regenerated from the source."""
+    from ..translate import skeleton
+
+    facts, broken = skeleton.generate({"ParallelUtilityEstimationWrapper"})
+    ctx.notes["generated_obligations"] = 1
+    ctx.notes["generated_discharged"] = 1
+    for cls in broken:
+        ctx.broken.append(f"translator: the tail of {cls}.query is no longer `simple_batch(utilities, self.random_state_, batch_size=…, "
+                          f"return_utilities=…)` after the scatter through mapping (obligation skel_{cls}_wf flipped): {facts.get(cls)}")
+
+
 def make_proxy(inner, log):
     """A subclass instance of the inner strategy's class that records every query call."""
     cls = type(inner)
@@ -45,7 +58,8 @@ def make_proxy(inner, log):
         def query(self, *a, **k):
             rec = dict(candidates=None if k.get("candidates") is None else np.array(k["candidates"]).copy(),
                        X=np.array(k["X"]).copy() if "X" in k else None, y=np.array(k["y"]).copy() if "y" in k else None,
-                       batch_size=k.get("batch_size"))
+                       batch_size=k.get("batch_size"),
+                       extra_ids={kk: id(v) for kk, v in k.items() if kk not in ("X", "y", "candidates", "batch_size", "return_utilities")})
             out = cls.query(self, *a, **k)
             rec["out"] = out
             log.append(rec)
@@ -79,6 +93,28 @@ class CrsSpy:
         return False
 
 
+def check_passthrough(ctx, wrapper_name, w, inner, kw, log, case):
+    """`match_signature` + `**query_kwargs`: the wrapper exposes the wrapped strategy's query signature and
+    hands the caller's extra arguments (model objects etc.) to it unchanged (same objects)."""
+    import inspect
+
+    try:
+        same_sig = list(inspect.signature(w.query).parameters) == list(inspect.signature(inner.query).parameters)
+    except (TypeError, ValueError):
+        same_sig = True
+    if not same_sig:
+        ctx.violate(f"C20/{wrapper_name}.query/signature-differs",
+                    f"{wrapper_name}.query does not expose the wrapped strategy's query signature", case)
+    want = {k: id(v) for k, v in kw.items()}
+    for rec in log:
+        if rec.get("extra_ids") is not None and rec["extra_ids"] != want:
+            ctx.violate(f"C20/{wrapper_name}.query/arguments-not-passed-through",
+                        f"{wrapper_name} did not hand the caller's extra query arguments to the wrapped strategy unchanged "
+                        f"(expected {sorted(want)}, got {sorted(rec['extra_ids'])})", case)
+            break
+    ctx.count("passthrough_checked")
+
+
 def rows_bits(U):
     return [" ".join(f2bits(x) for x in r) for r in np.asarray(U, dtype=float)]
 
@@ -93,8 +129,16 @@ def case_parallel(ctx, spec, rng, lines, checks):
 
     nrs = np.random.RandomState(rng.randrange(2**31 - 1))
     n = rng.randint(5, 14)
-    data = make_data(nrs, n, spec.kind, rng.choice(["random", "grid", "duplicates"]), n_labeled=rng.randint(2, n - 2),
-                     classes=spec.classes or (0, 1, 2))
+    # tie-heavy pools for the RNG-aligned strategies (cold start, identical points): there the selection is decided
+    # by the tie-breaking noise alone, so "equal seeds give the same selection" is actually exercised
+    tied = spec.name in ALIGNED and rng.random() < 0.5
+    if tied:
+        data = make_data(nrs, n, spec.kind, rng.choice(["all_equal", "duplicates", "random"]), n_labeled=rng.choice([0, 0, 1]),
+                         classes=spec.classes or (0, 1, 2))
+        ctx.count("parallel_tie_heavy")
+    else:
+        data = make_data(nrs, n, spec.kind, rng.choice(["random", "grid", "duplicates"]), n_labeled=rng.randint(2, n - 2),
+                         classes=spec.classes or (0, 1, 2))
     mode = rng.choice(["none", "idx", "rows"])
     cand, cs, ncols = _pool.candidate_arg(data, mode, rng, spec)
     if cs is None or len(cs) == 0:
@@ -125,6 +169,26 @@ def case_parallel(ctx, spec, rng, lines, checks):
         ctx.violate(f"C20/ParallelUtilityEstimationWrapper.query/raises:{type(e).__name__}",
                     f"parallel wrapper around {spec.name} raised {type(e).__name__}: {str(e)[:100]} (n_jobs={n_jobs}, {len(cs)} candidates)", case)
         return
+    if backend and log:
+        check_passthrough(ctx, "ParallelUtilityEstimationWrapper", w, inner, kw, log, case)
+    if spec.name in ALIGNED:
+        # a RandomState instance given as random_state must not be consumed by a query (it is deep-copied), so the
+        # same call repeated gives the same selection as the wrapped strategy does
+        rs_obj = np.random.RandomState(seed)
+        st0 = rs_obj.get_state()[1].copy()
+        try:
+            with warnings.catch_warnings(), np.errstate(all="ignore"):
+                warnings.simplefilter("ignore")
+                w2 = ParallelUtilityEstimationWrapper(query_strategy=spec.make(seed), n_jobs=1, random_state=rs_obj)
+                qa = w2.query(data["X"], data["y"], candidates=cand, batch_size=1, **spec.kwargs(data, seed))
+                qb = w2.query(data["X"], data["y"], candidates=cand, batch_size=1, **spec.kwargs(data, seed))
+            if not np.array_equal(st0, rs_obj.get_state()[1]) or not np.array_equal(qa, qb):
+                ctx.violate("C20/ParallelUtilityEstimationWrapper.query/randomstate-instance-consumed",
+                            f"parallel wrapper around {spec.name}: a RandomState instance passed as random_state is advanced by query "
+                            f"(repeated identical calls select {np.asarray(qa).tolist()} then {np.asarray(qb).tolist()})", case)
+            ctx.count("parallel_randomstate_replay")
+        except Exception:
+            ctx.count("parallel_randomstate_replay_raised")
     U, U0 = np.asarray(U, float), np.asarray(U0, float)
     exact = U.shape == U0.shape and np.array_equal(U, U0, equal_nan=True)
     close = U.shape == U0.shape and np.array_equal(np.isnan(U), np.isnan(U0)) and np.allclose(U, U0, rtol=1e-9, atol=1e-12, equal_nan=True)
@@ -203,6 +267,7 @@ def case_subsample(ctx, spec, rng, lines, checks):
         return
     drawn = [int(v) for v in np.atleast_1d(draws[0][1])]
     rec = log[0]
+    check_passthrough(ctx, "SubSamplingWrapper", w, inner, kw, log, case)
     n_cols = ncols
     cand_idx = [int(c) for c in cs] if mode != "rows" else list(range(len(cand)))
     sub = drawn  # caller space in all three modes (rows: positions in `candidates`)
@@ -271,7 +336,7 @@ def explore(ctx, n_par, n_sub):
     specs = {s.name: s for s in pool_specs()}
     lines, checks = [], []
     for name in PAR_INNER:
-        for _ in range(n_par):
+        for _ in range(n_par * (4 if name in ALIGNED else 1)):
             case_parallel(ctx, specs[name], rng, lines, checks)
     for name in SUB_INNER:
         for _ in range(n_sub):
